@@ -251,7 +251,7 @@ def finish(res, t0, level, checker_cmd, replay_fn=None, extra_cov=None, rule=Non
         jsonschema.validate(ev, schema)
     except Exception as ex:
         lines.append(f"CHECKER-ERROR property={pid} evidence does not validate: {str(ex)[:200]}")
-        code = 3
+        code = 3 if code != 1 else 1        # a replayed violation stays a violation
     for l in lines:
         print(l)
     return code
